@@ -267,7 +267,7 @@ def _dihedral(p):
     return float(np.arctan2(np.dot(np.cross(n1, n2), b2 / np.linalg.norm(b2)), np.dot(n1, n2)))
 
 
-def body_table(start, length):
+def body_table(start, length, dup=0):
     """tertiary_v2.Structure.torsion_angles on the window of residues [start, start+length) of 1EHZ (which contains modified residues) against
     an independent IUPAC dihedral on the atoms the definitions name; the table carries the negated value (recorded finding) or nothing"""
     import math
@@ -279,6 +279,25 @@ def body_table(start, length):
     keys = {(r.auth.chain, str(r.auth.number)) for r in res}
     df = ctx["df"]
     sub = df[[(str(c), str(n)) in keys for c, n in zip(df["auth_asym_id"], df["auth_seq_id"])]].copy()
+    if dup:
+        # alternate locations: every atom of the window's first residue is listed a second time (altloc B, occupancy 0.40, mirrored through C1'),
+        # after the original copy (altloc A, occupancy 0.60).  Both reader generations must describe the first-listed, major copy.
+        import pandas as pd
+        r0 = res[0]
+        m0 = [(str(c), str(n)) == (r0.auth.chain, str(r0.auth.number)) for c, n in zip(sub["auth_asym_id"], sub["auth_seq_id"])]
+        sub["label_alt_id"] = sub["label_alt_id"].astype(object)
+        first = sub[m0].copy()
+        c1 = r0.find_atom("C1'")
+        if c1 is not None and len(first):
+            alt = first.copy()
+            for k_, ax in enumerate(("Cartn_x", "Cartn_y", "Cartn_z")):
+                alt[ax] = [2 * float(c1.coordinates[k_]) - float(v) for v in alt[ax]]
+            alt["label_alt_id"] = "B"
+            alt["occupancy"] = 0.40
+            sub.loc[m0, "label_alt_id"] = "A"
+            sub.loc[m0, "occupancy"] = 0.60
+            pos = max(i for i, f in enumerate(m0) if f) + 1
+            sub = pd.concat([sub.iloc[:pos], alt, sub.iloc[pos:]], ignore_index=True)
     sub.attrs["format"] = "mmCIF"
     problems = []
     try:
@@ -325,7 +344,7 @@ def body_table(start, length):
                                         f"{math.degrees(ref):.2f} (table carries its negation)")
     keys_ = ["tertiary_v2.Structure.torsion_angles"] if problems else []
     ok = all(k in known_keys(PID) for k in keys_)
-    log({"p": [start, length], "problems": problems[:3], "keys": keys_, "kind": "table"})
+    log({"p": [start, length, dup], "problems": problems[:3], "keys": keys_, "kind": "table"})
     return ok
 
 
@@ -334,7 +353,7 @@ def replay(rec):
     saved = ec.known_keys
     ec.known_keys = lambda pid: set()
     try:
-        return body_table(rec["p"][0], rec["p"][1])
+        return body_table(*rec["p"])
     finally:
         ec.known_keys = saved
 
@@ -384,11 +403,12 @@ def run(rep, tier):
     nres = 76
     S, Ln = z3.Int("start"), z3.Int("length")
     lens = (3,) if tier == "quick" else (2, 3, 4)
-    models, nq, dt = allsat.allsat([S, Ln], [S >= 0, z3.Or([Ln == k for k in lens]), S + Ln <= nres])
+    D = z3.Int("altloc")
+    models, nq, dt = allsat.allsat([S, Ln, D], [S >= 0, z3.Or([Ln == k for k in lens]), S + Ln <= nres, D >= 0, D <= 1])
     rep.add(transitions=nq, solver_s=dt)
     pt = allsat.run_family("torsion_table_windows", "harness.c18", "body_table", [tuple(m) for m in models],
                            [f"every window of {list(lens)} consecutive nucleotides of tests/1ehz-assembly-1.cif (contains modified residues)",
-                            "tertiary_v2.Structure.torsion_angles vs an independent IUPAC dihedral"], expected=len(models), chunksize=4)
+                            "tertiary_v2.Structure.torsion_angles vs an independent IUPAC dihedral", "with and without an alternate-location copy of the first residue's atoms"], expected=len(models), chunksize=4)
     e1.collect(rep, [pt], "harness.c18")
     rep.add(functions_encoded=["tertiary_v2.Structure.torsion_angles / connected_residues (real pandas, concretising mode)"])
     rep.add(functions_encoded=["tertiary.calculate_torsion_angle_coords", "tertiary.torsion_angle", "tertiary_v2.calculate_torsion_angle",
